@@ -606,7 +606,12 @@ fn copy_or_downsample(src_mode: &Mode, src_lg_k: u8, tgt_lg_k: u8) -> Array8 {
             }
         }
 
-        result.set_hip_accum(src_hip);
+        // An Array8 source is copied by a register merge, which leaves the copy out of order;
+        // an out-of-order estimator keeps a zero accumulator (see set_out_of_order), so the
+        // source's accumulator is only taken over by a copy that is still in order.
+        if !result.is_out_of_order() {
+            result.set_hip_accum(src_hip);
+        }
         if get_array_out_of_order(src_mode) {
             // An out-of-order source has no valid HIP accumulator (it is zeroed when the
             // sketch goes out of order). The copy must be out of order as well, otherwise
